@@ -17,8 +17,9 @@ use crate::{ensure, fail};
 #[derive(Debug, Clone, PartialEq, Eq, Serialize, Deserialize)]
 pub enum BandSpec {
     Absent,
-    /// Directory exists, no BANDHEAD.
-    NoHead,
+    /// Directory exists, no BANDHEAD (what an interrupted creation or a half-finished
+    /// removal leaves); `tail` says whether a BANDTAIL is lying in it.
+    NoHead { tail: bool },
     Band {
         /// Indices into the universe, strictly increasing in reference order.
         entries: Vec<u8>,
@@ -62,7 +63,12 @@ fn write_case(root: &Path, case: &Case) {
         let id = pos as u32 * case.stride;
         match b {
             BandSpec::Absent => {}
-            BandSpec::NoHead => format::write_band_dir(root, id),
+            BandSpec::NoHead { tail } => {
+                format::write_band_dir(root, id);
+                if *tail {
+                    format::write_band_tail(root, id, 1);
+                }
+            }
             BandSpec::Band { entries, hunks, missing_tail_hunks, closed } => {
                 format::write_band_head(root, id);
                 let layout = split_hunks(entries, hunks);
@@ -184,7 +190,7 @@ fn run(case: &Case, cx: &mut Cx) -> CaseResult {
     cx.nontrivial = nontrivial > 0;
     cx.label_if(nontrivial > 0, "straddling-resume");
     cx.label_if(case.stride > 1, "gaps-in-ids");
-    cx.label_if(case.bands.iter().any(|b| matches!(b, BandSpec::NoHead)), "headless-dir");
+    cx.label_if(case.bands.iter().any(|b| matches!(b, BandSpec::NoHead { .. })), "headless-dir");
     cx.label_if(
         case.bands.iter().any(|b| matches!(b, BandSpec::Band { missing_tail_hunks, .. } if *missing_tail_hunks > 0)),
         "missing-trailing-hunks",
@@ -199,7 +205,7 @@ fn run(case: &Case, cx: &mut Cx) -> CaseResult {
 // ---- exhaustive small space
 
 fn band_states(universe_len: usize) -> Vec<BandSpec> {
-    let mut out = vec![BandSpec::Absent, BandSpec::NoHead];
+    let mut out = vec![BandSpec::Absent, BandSpec::NoHead { tail: false }, BandSpec::NoHead { tail: true }];
     for closed in [false, true] {
         out.push(BandSpec::Band { entries: vec![], hunks: vec![], missing_tail_hunks: 0, closed });
     }
@@ -306,7 +312,7 @@ fn strategy(_tier: Tier) -> BoxedStrategy<Case> {
                 .into_iter()
                 .map(|(kind, mask, hunks, missing, closed)| match kind {
                     0 => BandSpec::Absent,
-                    1 => BandSpec::NoHead,
+                    1 => BandSpec::NoHead { tail: closed },
                     _ => BandSpec::Band {
                         entries: (0..universe.len() as u8).filter(|i| mask[*i as usize % mask.len()]).collect(),
                         hunks,
@@ -329,7 +335,7 @@ pub fn prop() -> Prop<Case> {
     Prop {
         id: "C08",
         level: "exploration",
-        rule: "archives are written directly by the harness in the documented format. Enumeration: every arrangement of 3 band slots, each in {absent, directory without head, head(+tail) without hunks, head + any non-empty sorted subset of the universe split into 1 or 2 hunks, with or without tail} over the universe {/a, /a.b, /a/b} (quick; thorough adds /é), listed for every N that has a head and subtree in {/, /a, /a.b}. Generated: up to 5 slots with id gaps, universes of 4-10 generated paths, up to 5 hunks per band incl. empty [] hunks and missing trailing hunks, subtree from the universe or absent, exclude sets. Oracle: Archive::iter_entries == reference stitcher (own entries, then nearest earlier band with a head after the last path taken, until a closed band) filtered by containment and the exclude rule, entry-for-entry with provenance encoded in mtime; strictly increasing under the reference order; never longer than the archive's entry count (termination). Non-trivial = N incomplete, an older band continues it, and the resume point falls strictly inside a hunk of the older band or skips over an absent/head-less slot; enumerated listings distinct by construction, generated by case hash",
+        rule: "archives are written directly by the harness in the documented format. Enumeration: every arrangement of 3 band slots, each in {absent, directory without head (with or without a stray tail), head(+tail) without hunks, head + any non-empty sorted subset of the universe split into 1 or 2 hunks, with or without tail} over the universe {/a, /a.b, /a/b} (quick; thorough adds /é), listed for every N that has a head and subtree in {/, /a, /a.b}. Generated: up to 5 slots with id gaps, universes of 4-10 generated paths, up to 5 hunks per band incl. empty [] hunks and missing trailing hunks, subtree from the universe or absent, exclude sets. Oracle: Archive::iter_entries == reference stitcher (own entries, then nearest earlier band with a head after the last path taken, until a closed band) filtered by containment and the exclude rule, entry-for-entry with provenance encoded in mtime; strictly increasing under the reference order; never longer than the archive's entry count (termination). Non-trivial = N incomplete, an older band continues it, and the resume point falls strictly inside a hunk of the older band or skips over an absent/head-less slot; enumerated listings distinct by construction, generated by case hash",
         assumptions: &[
             "head-less directories are not 'existing versions' (the stitcher skips them)",
             "reference stitcher and containment/exclude oracles are the harness's own",
